@@ -82,7 +82,8 @@ fn emit_choice(
                     choice.body.as_slice(),
                     [Node::Divert(d)] if d.target == "END" || d.target == "DONE"
                 );
-            let body_is_inline_divert = matches!(choice.body.as_slice(), [Node::Divert(_)])
+            let body_is_inline_divert = choice.body_divert_is_inline
+                && matches!(choice.body.as_slice(), [Node::Divert(_)])
                 && selected_text.ends_with(char::is_whitespace);
             if !body_is_terminal_divert && !body_is_inline_divert {
                 branch_nodes.push(Node::Newline);
